@@ -99,6 +99,12 @@ def build(r, name, derives, n=None, styles=True, allow_default=True, allow_disab
                     v.to_string = rand_spelling(r, uni, allow_braces)
                     k = r.choice([1, 2])
                     v.serialize = [rand_spelling(r, uni, allow_braces) for _ in range(k)]
+            if spec.prefix and (v.to_string is not None or v.serialize) and r.random() < 0.15:
+                # an explicit name that itself begins with the enum's prefix text: the prefix is still prepended once more
+                if v.to_string is not None:
+                    v.to_string = spec.prefix + v.to_string
+                else:
+                    v.serialize = [spec.prefix + x for x in v.serialize]
             if any(has_placeholder_braces(x) for x in v.serialize + [v.to_string or ""]):
                 continue
             if allow_aci:
